@@ -111,18 +111,29 @@ def lean_obligations(pid, tier):
     for d in declared:
         if d.split(".")[-1] not in audited:
             res["errors"].append(f"theorem {d} of Properties/{pid}.lean is not covered by Audit/{pid}.lean")
-    # forbidden constructs anywhere in the Lean sources (comments stripped)
+    # forbidden constructs in every Lean source the property module (transitively) imports,
+    # comments stripped (files outside the import closure cannot affect the theorems)
     bad_pat = re.compile(r"\b(sorry|admit|native_decide|bv_decide|implemented_by|unsafe)\b|^axiom |maxHeartbeats 0")
-    for root, _, files in os.walk(os.path.join(LEAN, "RSVerif")):
-        for f in files:
-            if not f.endswith(".lean"):
-                continue
-            txt = open(os.path.join(root, f)).read()
-            txt = re.sub(r"/-.*?-/", "", txt, flags=re.S)
-            for ln in txt.splitlines():
-                code = ln.split("--")[0]
-                if bad_pat.search(code):
-                    res["errors"].append(f"forbidden construct in {f}: {ln.strip()[:120]}")
+    closure, todo = set(), [f"RSVerif.Properties.{pid}"]
+    while todo:
+        m = todo.pop()
+        if m in closure:
+            continue
+        fp = os.path.join(LEAN, *m.split(".")) + ".lean"
+        if not os.path.exists(fp):
+            continue
+        closure.add(m)
+        for im in re.findall(r"^import\s+(RSVerif\.[A-Za-z0-9_.]+)", open(fp).read(), flags=re.M):
+            todo.append(im)
+    res["lean_modules_in_closure"] = len(closure)
+    for m in sorted(closure):
+        fp = os.path.join(LEAN, *m.split(".")) + ".lean"
+        txt = open(fp).read()
+        txt = re.sub(r"/-.*?-/", "", txt, flags=re.S)
+        for ln in txt.splitlines():
+            code = ln.split("--")[0]
+            if bad_pat.search(code):
+                res["errors"].append(f"forbidden construct in {m}: {ln.strip()[:120]}")
     if tier == "thorough" and not res["errors"]:
         rc, out = sh(["lake", "env", "leanchecker", f"RSVerif.Properties.{pid}"], cwd=LEAN, timeout=3600)
         res["leanchecker_rc"] = rc
@@ -141,15 +152,37 @@ def build_harness(profile):
         if not os.path.exists(lock_dst) and os.path.exists(lock_src):
             import shutil
             shutil.copy(lock_src, lock_dst)
+        def private_copy():
+            # the binary of THIS build (of /repo as it is now) is copied aside while the build lock is
+            # held, so that a concurrent check of a different tree cannot swap it under this run
+            import shutil
+            d = os.path.join(HARNESS, "target", "runs")
+            os.makedirs(d, exist_ok=True)
+            dst = os.path.join(d, f"rsharness-{profile}-{os.getpid()}")
+            shutil.copy2(binp, dst)
+            PRIVATE_BINS.append(dst)
+            return dst
         rc, out = sh(["cargo", "build", "--offline"] + flags, cwd=HARNESS, timeout=3600)
         if rc == 0:
-            return True, "", binp
+            return True, "", private_copy()
         if "neon_port" in out or "neon_emu" in out:
             rc2, out2 = sh(["cargo", "build", "--offline", "--no-default-features"] + flags, cwd=HARNESS, timeout=3600)
             if rc2 == 0:
-                return True, "neon port does not compile against the current engine_neon.rs: Neon sub-checks unavailable", binp
+                return True, "neon port does not compile against the current engine_neon.rs: Neon sub-checks unavailable", private_copy()
             out = out2
         return False, out[-6000:], binp
+
+
+PRIVATE_BINS = []
+
+
+def repo_fingerprint():
+    import hashlib
+    h = hashlib.sha256()
+    for cmd in (["git", "-C", "/repo", "rev-parse", "HEAD"], ["git", "-C", "/repo", "diff", "HEAD"],
+                ["git", "-C", "/repo", "status", "--porcelain"]):
+        h.update(subprocess.run(cmd, stdout=subprocess.PIPE, stderr=subprocess.DEVNULL).stdout)
+    return h.hexdigest()[:16]
 
 
 def load_known():
@@ -202,6 +235,7 @@ def main():
     meta = PROPS[pid]
     t0 = time.time()
     os.makedirs(EVID, exist_ok=True)
+    fp_start = repo_fingerprint()
 
     # ---- 1. tie: build the harness against the current /repo (needed first: C16 regenerates a Lean
     #         input from the running code)
@@ -297,6 +331,48 @@ def main():
         broken.append({"kind": "theorem", "detail": lean["errors"]})
     if model:
         broken.append({"kind": "correspondence", "detail": [m["what"] for m in model[:10]]})
+    if broken and not violations and not replay:
+        # SEARCH: something no longer checks but no input failed the direct oracle in this run.
+        # Look further: the same generators with other seeds, then the thorough generator (time-boxed).
+        search_log = []
+        found = []
+        attempts = [("quick", seed + 1), ("quick", seed + 2), ("quick", seed + 3)]
+        if tier == "quick":
+            attempts.append(("thorough", seed))
+        t_search = time.time()
+        for (t2, s2) in attempts:
+            if found or time.time() - t_search > 1200:
+                break
+            prof = profiles[0]
+            outp = os.path.join(EVID, f".{pid}-search-report.json")
+            if os.path.exists(outp):
+                os.remove(outp)
+            try:
+                rc, out = sh([bins[prof], pid, "--tier", t2, "--seed", str(s2), "--model", RSMODEL, "--out", outp],
+                             timeout=900)
+            except subprocess.TimeoutExpired:
+                search_log.append(f"tier={t2} seed={s2}: timed out")
+                continue
+            if os.path.exists(outp):
+                rep = json.load(open(outp))
+                os.remove(outp)
+                fo = [f for f in rep.get("findings", []) if f["class"] == "oracle" and not matches_known(pid, f, known)]
+                search_log.append(f"tier={t2} seed={s2}: {rep.get('evaluations', 0)} cases, {len(fo)} oracle failures")
+                for f in fo[:3]:
+                    f["profile"] = prof
+                    f["seed"] = s2
+                    f["tier"] = t2
+                    found.append(f)
+        for f in found:
+            path = write_replay(pid, n_replay, {"property": pid, "kind": "failing-input", "what": f["what"],
+                                                "seed": f["seed"], "tier": f["tier"], "found_by": "search after a broken obligation/correspondence",
+                                                "no_longer_checks": broken,
+                                                "profile": f.get("profile"), "case": f["case"], "line_no": f.get("line_no")})
+            violations.append(f"VIOLATION property={pid} replay={path}")
+            n_replay += 1
+            oracle.append(f)
+    else:
+        search_log = []
     if broken and not violations:
         # an obligation or the correspondence no longer checks, and the direct oracle found no failing
         # input anywhere in this run (including the neighbourhood search the harness performs)
@@ -304,8 +380,8 @@ def main():
             "property": pid, "kind": "no-failing-input-found", "seed": seed, "tier": tier,
             "no_longer_checks": broken,
             "divergent_cases": [m["case"] for m in model[:5]],
-            "searched": "direct oracle on every generated case of this tier, on the shrunk variants and on the "
-                        "neighbourhood of each divergent case",
+            "searched": "direct oracle on every generated case of this run, then the same generators under three other seeds "
+                        "and the thorough generator (time-boxed): " + "; ".join(search_log),
         })
         violations.append(f"VIOLATION property={pid} replay={path} no-failing-input-found")
 
@@ -321,6 +397,7 @@ def main():
         "theorems": lean["theorems"],
         "axioms": lean["axioms"],
         "lean_errors": lean["errors"],
+        "lean_modules_in_closure": lean.get("lean_modules_in_closure", 0),
         "evaluations": max(evals, 1),
         "distinct_nontrivial": distinct,
         "rule": meta["rule"],
@@ -336,6 +413,8 @@ def main():
         "unavailable_subchecks": sorted({u for r in reports for u in r.get("unavailable", [])} | set(notes)),
         "exhaustive": bool(meta.get("exhaustive", False)),
         "harness_notes": [n for r in reports for n in r.get("notes", [])],
+        "repo_fingerprint": fp_start,
+        "repo_changed_during_run": repo_fingerprint() != fp_start,
     }
     if lean["obligations"] == 0 or lean["discharged"] != lean["obligations"]:
         # a proof-level claim needs discharged == obligations; report honestly otherwise
@@ -364,4 +443,12 @@ def main():
 
 
 if __name__ == "__main__":
-    sys.exit(main())
+    try:
+        rc_main = main()
+    finally:
+        for b in PRIVATE_BINS:
+            try:
+                os.remove(b)
+            except OSError:
+                pass
+    sys.exit(rc_main)
